@@ -175,7 +175,7 @@ def _cache_dir():
     return d
 
 
-def _evict_cache(keep=4):
+def _evict_cache(keep=int(os.environ.get("VERIF_CACHE_KEEP", "6"))):
     try:
         ents = [os.path.join(CACHE, e) for e in os.listdir(CACHE)]
         ents = [e for e in ents if os.path.isdir(e)]
